@@ -176,11 +176,10 @@ def _clamp_lat(x):
 
 
 def _wrap_lon(x):
-    if x > 180.0:
-        x -= 360.0
-    if x < -180.0:
-        x += 360.0
-    return x
+    """Into [-180, 180] (the quantifier's longitudes), whatever the offset that was added."""
+    if -180.0 <= x <= 180.0:
+        return x
+    return (x + 180.0) % 360.0 - 180.0
 
 
 @st.composite
